@@ -235,7 +235,9 @@ static Outcome WriterLeg(RunCtx& ctx, Outcome& out)
 	const int enc = static_cast<int>(s.draw(sim::L_CFG, 5));
 	const bool bom = s.chance(sim::L_CFG, 1, 2);
 	const int width = static_cast<int>(s.draw(sim::L_CFG, 3));
-	const std::u32string text = GenText(s, sim::L_DOC, TextProfile::Any, 700);
+	std::u32string text = GenText(s, sim::L_DOC, TextProfile::Any, 700);
+	// 1 run in 8: a long text, so that single writes exceed every internal block size
+	if (s.chance(sim::L_DOC, 1, 8)) { const uint32_t more = 1 + s.draw(sim::L_DOC, 5); for (uint32_t i = 0; i < more; ++i) text += GenText(s, sim::L_DOC, TextProfile::Any, 700); }
 	const uint32_t parts = 1 + s.draw(sim::L_DOC, 8);
 	std::vector<size_t> cuts;
 	for (uint32_t i = 1; i < parts && !text.empty(); ++i) cuts.push_back(s.draw(sim::L_DOC, static_cast<uint32_t>(text.size() + 1)));
